@@ -18,7 +18,7 @@ records what the old code did.
 
 Modelled constraints: logical and/or/xor/not; anything, camliType, anyCamliType, blobRefPrefix,
 blobSize; permanode attr / value / valueMatches (equals, contains, hasPrefix, hasSuffix, empty,
-byteLength) / valueMatchesInt / numValue / valueAll / valueInSet / skipHidden / modTime / time /
+byteLength, caseInsensitive on ASCII) / valueMatchesInt / numValue / valueAll / valueInSet / skipHidden / modTime / time /
 relation (parent, child; any, all; edgeType); file fileName / fileSize / mimeType / time / modTime /
 wholeRef / parentDir; dir fileName / blobRefPrefix / parentDir / topFileCount / contains /
 recursiveContains.
@@ -110,7 +110,7 @@ def noFlat : Flat := ⟨false, [], false, [], none⟩
 def noP : PFlat := ⟨[], false, none, false, [], none, none, none, none⟩
 def noF : FFlat := ⟨none, none, none, none, none, []⟩
 def noD : DFlat := ⟨none, [], none⟩
-def strEq (s : Str) : StrC := ⟨false, s, [], [], [], none⟩
+def strEq (s : Str) : StrC := ⟨false, s, [], [], [], none, false⟩
 /-- `{permanode: {attr, value}}` -/
 def attrIs (a v : Str) : Cons := .mk .none .nil .nil noFlat (.mk { noP with attr := a, value := v } .nil none .nil .nil) .nil .nil
 /-- `{camliType: "permanode"}` -/
